@@ -142,6 +142,12 @@ func (v *victim) do(op Op) string {
 			return "err=" + strings.ReplaceAll(err.Error(), "\n", " ")
 		}
 		return fmt.Sprintf("st=%d", st)
+	case "migrate":
+		st, _, err := postFresh(v.e, "/api/v1/equipment-migrate", op.bytes())
+		if err != nil {
+			return "err=" + strings.ReplaceAll(err.Error(), "\n", " ")
+		}
+		return fmt.Sprintf("st=%d", st)
 	case "report":
 		v.e.Inject(op.bytes())
 		return ""
@@ -192,7 +198,12 @@ func (v *victim) do(op Op) string {
 	return ""
 }
 
-func (v *victim) exec(op Op) {
+// exec runs one operation of the sequential part. storm, if not nil, is an
+// authorization that a second connection keeps posting (the same pre-signed
+// bytes) from the moment op begins until the server accepts it: it is in
+// flight concurrently with op, and it is complete before anything else is
+// submitted.
+func (v *victim) exec(op Op, storm *Op) {
 	if op.SleepUs > 0 {
 		time.Sleep(time.Duration(op.SleepUs) * time.Microsecond)
 	}
@@ -207,16 +218,55 @@ func (v *victim) exec(op Op) {
 	if op.Round < 0 {
 		v.curOp.Store(int64(op.I))
 	}
+	stormDone := make(chan string, 1)
+	if storm != nil {
+		a, err := refenc.ParseAuth(storm.bytes())
+		if err != nil {
+			v.fail("bad auth bytes in script")
+		}
+		body := a.JSON()
+		v.logf("BEGIN %d %s", storm.I, storm.K)
+		go func() {
+			t0 := time.Now()
+			for {
+				st, _, err := postFresh(v.e, "/api/v1/authorize-equipment", body)
+				if err != nil {
+					stormDone <- "err=" + strings.ReplaceAll(err.Error(), "\n", " ")
+					return
+				}
+				if st == 200 {
+					stormDone <- "st=200"
+					return
+				}
+				if time.Since(t0) > 20*time.Second {
+					stormDone <- "giveup"
+					return
+				}
+				time.Sleep(100 * time.Microsecond)
+			}
+		}()
+	}
 	res := v.do(op)
 	v.logf("END %d %s", op.I, res)
-	if strings.HasPrefix(res, "err=") {
+	bad := strings.HasPrefix(res, "err=")
+	last := op.I
+	if storm != nil {
+		sres := <-stormDone
+		if sres == "giveup" {
+			v.fail("the concurrently posted authorization (op %d) was not accepted within 20 s", storm.I)
+		}
+		v.logf("END %d %s", storm.I, sres)
+		bad = bad || strings.HasPrefix(sres, "err=")
+		last = storm.I
+	}
+	if bad {
 		// The request's fate is unknown (the oracle treats the operation as
 		// possibly applied); nothing may be submitted after it.
-		v.logf("PAUSE after %d (transport error)", op.I)
+		v.logf("PAUSE after %d (transport error)", last)
 		park()
 	}
-	if op.I == v.sc.PauseAfter {
-		v.logf("PAUSE after %d", op.I)
+	if op.I == v.sc.PauseAfter || (storm != nil && storm.I == v.sc.PauseAfter) {
+		v.logf("PAUSE after %d", last)
 		park()
 	}
 }
@@ -227,6 +277,10 @@ func victimMain(dir, scriptPath string) {
 		fmt.Fprintln(os.Stderr, "victim: cannot read script:", err)
 		os.Exit(2)
 	}
+	// The sequential part runs on one OS thread: strace counts `when=N` per
+	// thread, and start-up (NewGCAServer) and report handling make their system
+	// calls in the calling goroutine, so the N-th call of a (re)start is exact.
+	runtime.LockOSThread()
 	v := &victim{sc: sc, e: &drv.Srv{Dir: dir}}
 	v.oplog, err = os.OpenFile(filepath.Join(filepath.Dir(scriptPath), "oplog"), os.O_CREATE|os.O_WRONLY|os.O_APPEND, 0644)
 	if err != nil {
@@ -267,12 +321,17 @@ func victimMain(dir, scriptPath string) {
 			}()
 		})
 	}
-	for _, op := range sc.Ops {
-		v.exec(op)
+	for i := 0; i < len(sc.Ops); i++ {
+		if i+1 < len(sc.Ops) && sc.Ops[i+1].Storm {
+			v.exec(sc.Ops[i], &sc.Ops[i+1])
+			i++
+			continue
+		}
+		v.exec(sc.Ops[i], nil)
 	}
 	for ri, rd := range sc.Rounds {
 		for _, op := range rd.Pre {
-			v.exec(op)
+			v.exec(op, nil)
 		}
 		if ri == 0 {
 			v.logf("GO")
@@ -283,7 +342,7 @@ func victimMain(dir, scriptPath string) {
 			go func(ops []Op) {
 				defer wg.Done()
 				for _, op := range ops {
-					v.exec(op)
+					v.exec(op, nil)
 				}
 			}(w)
 		}
